@@ -179,9 +179,18 @@ ssize_t verif_write(int fd, const void *b, size_t n)
 /* ------------------------------------------------------------------ locale */
 int vh_loc_dup_fail = 0, vh_loc_new_fail = 0, vh_loc_used_c = 0;
 long vh_loc_live = 0, vh_loc_calls = 0;
+char vh_loc_log[64];
+int vh_loc_logn = 0;
+static void loclog(char c)
+{
+	if (vh_loc_logn < 63)
+		vh_loc_log[vh_loc_logn++] = c;
+	vh_loc_log[vh_loc_logn] = 0;
+}
 locale_t verif_uselocale(locale_t l)
 {
 	vh_loc_calls++;
+	loclog(l ? 'u' : 'q');
 	if (l)
 		vh_loc_used_c++;
 	return uselocale(l);
@@ -192,9 +201,11 @@ locale_t verif_duplocale(locale_t l)
 	if (vh_loc_dup_fail)
 	{
 		vh_loc_dup_fail = 0;
+		loclog('D');
 		errno = ENOMEM;
 		return (locale_t)0;
 	}
+	loclog('d');
 	locale_t r = duplocale(l);
 	if (r)
 		vh_loc_live++;
@@ -206,9 +217,11 @@ locale_t verif_newlocale(int m, const char *n, locale_t b)
 	if (vh_loc_new_fail)
 	{
 		vh_loc_new_fail = 0;
+		loclog('N');
 		errno = ENOMEM;
 		return (locale_t)0;
 	}
+	loclog('n');
 	locale_t r = newlocale(m, n, b);
 	if (r && !b)
 		vh_loc_live++; /* with a base, the base object is consumed and the result replaces it */
@@ -217,6 +230,7 @@ locale_t verif_newlocale(int m, const char *n, locale_t b)
 void verif_freelocale(locale_t l)
 {
 	vh_loc_calls++;
+	loclog('f');
 	vh_loc_live--;
 	freelocale(l);
 }
